@@ -139,8 +139,10 @@ def main():
     open(os.path.join(gvh_dir, "Cargo.toml"), "w").write(toml)
     rc, out = sh(["cargo", "build", "--release", "--offline"], cwd=gvh_dir, env=dict(ENV, RUSTFLAGS="--cfg georust_geo_verif"))
     if rc != 0:
-        print("harness does not build against the patched tree:\n", out[-1500:])
-        det = {"error": "harness build failed"}
+        print("harness does not build against the patched tree (or /verif/harness is being edited): try again later\n", out[-1500:])
+        sh(["git", "checkout", "--", "."], cwd=geo)
+        os.remove(os.path.join(geo, "geo", "tests", tname + ".rs"))
+        return 3
     else:
         det = detect(os.path.join(gvh_dir, "target", "release", "gvh"), props)
     sh(["git", "checkout", "--", "."], cwd=geo)
